@@ -513,6 +513,8 @@ class EQLTranslator:
             if join_result is not None:
                 return None
 
+        self._check_relationship_operands(query)
+
         left = self._translate_comparator_operand(query.left)
         right = self._translate_comparator_operand(query.right)
 
@@ -531,6 +533,47 @@ class EQLTranslator:
             return mapper.map_comparison_operator(operation, left, right)
         except sqlalchemy.exc.ArgumentError as error:
             raise UnsupportedOperatorError(str(error)) from error
+
+    def _is_relationship_valued(self, operand: Any) -> bool:
+        """
+        Check if an operand is an attribute chain that ends on a relationship.
+
+        :param operand: The comparator operand
+        :return: True if the operand denotes a related entity, not a column value
+        """
+        if not isinstance(operand, Attribute):
+            return False
+        base_class = self._extract_base_class(operand)
+        current_dao = get_dao_class(base_class) if base_class is not None else None
+        if current_dao is None:
+            return False
+        rel_resolver = RelationshipResolver()
+        relationship = None
+        for name in self._collect_attribute_chain(operand):
+            mapper = sqlalchemy.inspection.inspect(current_dao)
+            relationship = rel_resolver._find_relationship(mapper, name)
+            if relationship is None:
+                return False
+            current_dao = relationship.entity.class_
+        return relationship is not None
+
+    def _check_relationship_operands(self, query: Comparator) -> None:
+        """
+        A related entity is represented by its foreign key, so it can only be tested for
+        (in)equality with another related entity or with a variable that resolves to a row.
+
+        :param query: The comparator query
+        """
+        for operand, other in ((query.left, query.right), (query.right, query.left)):
+            if not self._is_relationship_valued(operand):
+                continue
+            other_is_entity = self._is_relationship_valued(other) or (
+                isinstance(other, Variable) and not isinstance(other, Literal)
+            )
+            if not other_is_entity or query.operation not in (operator.eq, operator.ne):
+                raise UnsupportedOperatorError(
+                    f"Relationship '{operand._attr_name_}' can only be compared with == or != to another entity."
+                )
 
     def _is_attribute_equality_join(self, query: Comparator) -> bool:
         """
